@@ -68,7 +68,15 @@ def str_method(frame, obj, name, args):
         out = []
         for c in obj.cs:
             if isinstance(c, int): out.append(ord(getattr(chr(c), name)())); continue
-            if not eng.branch(c < 128): raise Unsupported('non-ASCII %s()' % name)
+            if not eng.branch(c < 128):
+                # non-ASCII: only for code points of the harness-declared finite domain
+                for x in getattr(eng, 'nonascii_domain', ()):
+                    if eng.branch(c == x):
+                        out.extend(ord(y) for y in getattr(chr(x), name)())
+                        break
+                else:
+                    raise Unsupported('non-ASCII %s() outside the declared domain' % name)
+                continue
             lo, hi, d = (97, 122, -32) if name == 'upper' else (65, 90, 32)
             if eng.branch(z3.And(c >= lo, c <= hi)): out.append(c + d)
             else: out.append(c)
